@@ -2,10 +2,10 @@
    specification oracle.  ExtrOcamlBasic only; N/Z/positive stay inductive. *)
 Require Extraction.
 Require Import ExtrOcamlBasic.
-From DV Require Import Lib.Base Match.Rule Match.Matcher Match.Bus Spec.MatchSpec Spec.MatchSpecWorld.
+From DV Require Import Lib.Base Match.Rule Match.Matcher Match.Bus Match.Index Spec.MatchSpec Spec.MatchSpecWorld.
 Extraction Language OCaml.
 Extraction "model_match.ml"
   parse_rule tokenize token_prefix parse_uint rule_equal rule_flags rule_matches get_recipients
   handle_add_match handle_remove_match handle_disconnect dispatch step mkWorld
   spec_tokens spec_parse spec_matches srule_eqb abs_rule spec_step mkSWorld bs_sensitive plain_arg_key f2_value items_ok
-  item_meaning_of subset_cons.
+  item_meaning_of subset_cons istep iworld_new all_rules.
